@@ -119,7 +119,7 @@ theorem limitless_bracket_cannot_absorb (a : Acc) (d : CtxDef) (body : List Item
     (hk : (runBody { a with st := push a.st d } body).2 = .killed .cpu) :
     (runItem a (.call d body)).2 = .killed .cpu ∧
     (runItem a (.call d body)).1.st.cur.status = StatusKilled ∧
-    (runItem a (.call d body)).1.st.parents = a.st.parents ∧
+    LowerL (runItem a (.call d body)).1.st.parents a.st.parents ∧
     (runItem a (.call d body)).1.events = (runBody { a with st := push a.st d } body).1.events ∧
     (runItem a (.call d body)).1.results = (runBody { a with st := push a.st d } body).1.results :=
   limitless_bracket_propagates_cpu a d body hw hi hl hd hL hk
@@ -134,7 +134,7 @@ theorem uninterceptable (a : Acc) (body : List Item) (hw : bodyPcallCpu body = t
     (hm : Metered a.st.cur) (hf : bodyFits a.st.cur.hard.Cpu.toNat body)
     (hge : a.st.cur.hard.Cpu.toNat ≤ a.st.cur.used.Cpu.toNat + bodyCost body) :
     (runBody a body).2 = .killed .cpu ∧ (runBody a body).1.st.cur.status = StatusKilled ∧
-    (runBody a body).1.st.parents = a.st.parents ∧ EvKill a (runBody a body).1 :=
+    LowerL (runBody a body).1.st.parents a.st.parents ∧ EvKill a (runBody a body).1 :=
   (exact_body a body hw hi hm hf).die hge
 
 /-- **exact, through any nesting**: the same program is killed iff `L ≤ used + cost`; when it is
@@ -146,7 +146,7 @@ theorem kill_exact_nested (a : Acc) (body : List Item) (hw : bodyPcallCpu body =
     (a.st.cur.used.Cpu.toNat + bodyCost body < a.st.cur.hard.Cpu.toNat →
       (runBody a body).2 = .done ∧ Metered (runBody a body).1.st.cur ∧
       (runBody a body).1.st.cur.used.Cpu.toNat = a.st.cur.used.Cpu.toNat + bodyCost body ∧
-      (runBody a body).1.st.parents = a.st.parents ∧ EvOk a (runBody a body).1) := by
+      LowerL (runBody a body).1.st.parents a.st.parents ∧ EvOk a (runBody a body).1) := by
   have e := exact_body a body hw hi hm hf
   refine ⟨⟨fun hk => ?_, fun h => (e.die h).1⟩, fun h => ?_⟩
   · apply Classical.byContradiction
@@ -187,7 +187,7 @@ theorem child_with_own_limit_dies_alone (a : Acc) (d : CtxDef) (body : List Item
     (htight : a.st.cur.hard.Cpu = 0#64 ∨ d.hard.Cpu.toNat < a.st.cur.hard.Cpu.toNat - a.st.cur.used.Cpu.toNat)
     (hk : (runBody { a with st := push a.st d } body).2 = .killed .cpu) :
     (runItem a (.call d body)).2 = .done ∧ (runItem a (.call d body)).1.st.cur.live = true ∧
-    (runItem a (.call d body)).1.st.parents = a.st.parents ∧
+    LowerL (runItem a (.call d body)).1.st.parents a.st.parents ∧
     ∃ r, (runItem a (.call d body)).1.results = r :: (runBody { a with st := push a.st d } body).1.results ∧
       r.status = StatusKilled ∧ r.exit = .killed .cpu :=
   own_limit_dies_alone a d body hw hi hl hd htight hk
